@@ -25,6 +25,9 @@ def make_cases(tier, seed, passes_multi, observe, classes=None, scale=1.0,
                 # consume the schedule with next() or with the documented
                 # for-loop / break idiom (a new loop per adjoint pass)
                 "protocol": "for" if (i + seed) % 3 == 1 else "next"}
+        # every fourth case repeats finalize(n) whenever schedule.n == n
+        if (i + seed) % 4 == 1:
+            case["refinalize"] = True
         # online schedules: every fifth case finalises late (one or two
         # further next() calls after the forward reached its end)
         if cfg["cls"] in ("TwoLevel", "SingleDiskCopy", "SingleDiskMove",
@@ -46,6 +49,8 @@ def decorate(case, i, seed=0, frac=4):
     frac-th case, a paused sibling schedule (see make_cases)."""
     cfg = case["cfg"]
     case.setdefault("protocol", "for" if (i + seed) % 3 == 1 else "next")
+    if (i + seed) % 4 == 1:
+        case.setdefault("refinalize", True)
     if cfg["cls"] in ("TwoLevel", "SingleDiskCopy", "SingleDiskMove",
                       "SingleMemory", "None") and (i + seed) % 5 == 3:
         case.setdefault("late", 1 + (i // 5) % 2)
@@ -84,7 +89,8 @@ def run_stream_case(case, record=False):
                      observe=case.get("observe"),
                      rng=random.Random(case.get("rseed", 0)), record=record,
                      protocol=case.get("protocol", "next"),
-                     late=case.get("late", 0))
+                     late=case.get("late", 0),
+                     refinalize=case.get("refinalize", False))
     if sib is not None:
         try:
             sib.run()
